@@ -137,6 +137,10 @@ var registry = []Harness{
 		Quick:    [][]int{{2, 0, 0, 3}, {2, 4, 2, 3}, {2, 0, 0, 4}, {2, 7, 3, 0}, {2, 0, 2, 2}, {2, 4, 1, 3}, {2, 0, 4, 3}, {2, 0, 0, 0}, {2, 4, 0, 2}, {2, 0, 2, 0}, {2, 0, 3, 3}, {2, 0, 2, 4}, {3, 0, 0, 4, 3}, {3, 4, 0, 3, 0}, {3, 0, 1, 3, 1}},
 		Thorough: c04Thorough(),
 		Bound: "param0 consecutive symbolic operations (put, put with meta flag, putNamed with one shared name, delete, setEACL; symbolic target among two pool containers and a foreign id; symbolic Alphabet signature); blobs with version-field length param1 and all other bytes symbolic, second owner symbolic (same or other); after each operation get/owner/eACL/alias/count/list/containersOf and the NNS alias record are compared with a reference model; fees are zero (C05 covers them)"},
+	{Prop: "C10", Unwind: 300, Pkg: "nns", Func: "VerifC10Lifecycle", Link: []string{"nns"},
+		Quick:    [][]int{{0, 30, 0, 99, 99}, {0, 10, 99, 99, 99}, {0, 20, 99, 99, 99}, {0, 2, 30, 99, 99}, {0, 2, 32, 99, 99}, {0, 30, 20, 99, 99}},
+		Thorough: [][]int{{0, 30, 0, 99, 99}, {0, 10, 99, 99, 99}, {0, 20, 99, 99, 99}, {0, 2, 30, 99, 99}, {0, 2, 32, 99, 99}, {0, 10, 30, 0, 99}, {0, 30, 10, 99, 99}, {0, 20, 30, 20, 99}, {0, 1, 10, 30, 99}, {0, 30, 30, 0, 99}, {0, 2, 30, 2, 99}, {0, 2, 12, 32, 99}},
+		Bound:    "NNS with one TLD; pool names a.com, b.com, x.a.com, owners o1,o2; the step kinds and names are the params (register / transfer / renew / time passes), within a step the signer, receiver, lifetime 1..4*10^8 s, years 0..11 and the time span 1..3*10^6 ms are symbolic; after every step totalSupply, balanceOf, tokensOf, isAvailable and ownerOf of the name are compared with a reference model (block clock symbolic)"},
 }
 
 func c04Thorough() [][]int {
@@ -175,6 +179,7 @@ func allTriples(n int) [][]int {
 	}
 	return out
 }
+
 
 
 
